@@ -29,11 +29,20 @@ ASSUMPTIONS = [
     "multiplicity <= 4) with explicit output_inds (outputs that are bonds / hyper labels, dangling labels summed) and on "
     "networks holding a tensor with a repeated label (as diagonal_reduce leaves them)",
     "compression is only called without truncation: cutoff=0.0 and max_bond None or >= the bond",
-    "insert_gauge with gauges of condition number <= 4; gauge_all_random(unitary=False) and belief-propagation gauging in "
-    "double precision only (inverse gauges / inverse square roots of numerically zero message spectra are ill "
-    "conditioned in single precision)",
+    "insert_gauge with gauges of condition number <= 4; gauge_all_random(unitary=False), belief-propagation gauging "
+    "(and only on the random dense networks of the gauging driver) and the simple-update family (gauge_all_simple, "
+    "compress_all_simple, gauge_local(method='simple'), every call with an external gauges dict) in double precision "
+    "only: they multiply by inverse singular values / inverse square roots of message spectra (smudge 1e-12), which "
+    "overflows single precision on bonds that are or become rank deficient",
+    "passes that detect structure with the absolute atol=1e-12 (diagonal / antidiag / column / split / pair / loop / "
+    "full / compress simplify) only on networks whose tensors have 1e-6 <= max|entry| <= 1e6 (after simple-update "
+    "gauging of rank deficient networks tensors of norm 1e-12 occur, which an absolute tolerance cannot tell from 0)",
+    "every rewrite call runs under a 90 s wall-clock limit (8 s for full_simplify sequences containing both S and P, "
+    "which are drawn at a 2% rate only, finding C04-m); exceeding it is reported as non-termination",
+    "the isometry claim of a flagged tensor is not evaluated when a renaming put one label on it twice",
     "networks that are identically zero (all terms vanish structurally) are not given to rewrites that divide by a norm "
-    "(gauge_all_simple, compress_all_simple, BP gauging, gauge_local, external gauges, equalize_norms inside passes); "
+    "(gauge_all_simple, compress_all_simple, compress_between / compress_all*, BP gauging, gauge_local, external "
+    "gauges, equalize_norms inside passes); "
     "equalize_norms / strip_exponent on a zero tensor are called with the documented check_zero=True",
     "each step is judged against the network it received (dense before == dense after), so one defective rewrite does "
     "not propagate into the verdict of the next; a sequence stops at the first violated step",
